@@ -13,13 +13,14 @@ VARIABLES l, viol, poisoned,
           exp,                    \* set of <<chunk, ms>>: expiry of the chunks stored on the node
           loose,                  \* set of <<p, c, ms>>: latest chunk frame of (p, c) not followed by an ack, not timed out
           strict,                 \* Seq(<<p, c, ms>>): chunk frames not acknowledged one-for-one and not timed out, in send order
+          pend,                   \* set of <<p, c>>: requests of peers with a session that were neither served nor refused yet (deferred)
           stats
-vars == <<l, viol, poisoned, maxPar, perPeer, uto, exp, loose, strict, stats>>
+vars == <<l, viol, poisoned, maxPar, perPeer, uto, exp, loose, strict, pend, stats>>
 
 Stats0 == [sends |-> 0, dupsends |-> 0, nakdue |-> 0, releasechecks |-> 0, releasedue |-> 0, atlimit |-> 0]
 Init == /\ l = 1 /\ viol = <<>> /\ poisoned = FALSE
         /\ maxPar = 0 /\ perPeer = 0 /\ uto = 0
-        /\ exp = {} /\ loose = {} /\ strict = <<>>
+        /\ exp = {} /\ loose = {} /\ strict = <<>> /\ pend = {}
         /\ stats = Stats0
 
 \* chunk frames of the event, in order: sequence of <<p, c>>
@@ -46,9 +47,9 @@ ApplySends(lo, sr, snd, now, dups) ==
 Step(e) ==
   CASE e.op = "reset" ->
         /\ maxPar' = e.maxpar /\ perPeer' = e.perpeer /\ uto' = e.uto * 1000
-        /\ exp' = {} /\ loose' = {} /\ strict' = <<>>
+        /\ exp' = {} /\ loose' = {} /\ strict' = <<>> /\ pend' = {}
         /\ poisoned' = FALSE /\ UNCHANGED <<viol, stats>>
-    [] poisoned -> UNCHANGED <<viol, poisoned, maxPar, perPeer, uto, exp, loose, strict, stats>>
+    [] poisoned -> UNCHANGED <<viol, poisoned, maxPar, perPeer, uto, exp, loose, strict, pend, stats>>
     [] OTHER ->
         LET now == e.t
             isAck == e.op = "ack"
@@ -64,12 +65,22 @@ Step(e) ==
             nakDue == e.op = "req" /\ e.key = 1 /\ e.p \in ArrSet(Arr(e.sess))
                       /\ ~\E x \in exp : x[1] = e.c /\ now < x[2]
             relCheck == e.op \in {"ack", "tick"}
+            \* deferred requests: a request of a peer with a session that this event neither serves nor refuses waits in the node's queue;
+            \* it leaves the ghost when a chunk frame or a negative acknowledgement for it goes out, or when the peer's session is gone
+            sessNow == IF Has(e, "sess") THEN ArrSet(Arr(e.sess)) ELSE PeerIds
+            sentNow == {<<snd[i][1], snd[i][2]>> : i \in DOMAIN snd}
+            answered(x) == x \in sentNow \/ NakSent(e, x[1], x[2])
+            pend1 == {x \in pend \cup (IF e.op = "req" /\ e.key = 1 /\ e.p \in sessNow THEN {<<e.p, e.c>>} ELSE {}) : ~answered(x) /\ x[1] \in sessNow}
+            \* once no upload is running any more after an acknowledgement or a tick, nothing can hold a deferred request back:
+            \* it has been served, or -- the chunk has expired meanwhile, too little lifetime is left -- refused with a negative acknowledgement
+            starved == relCheck /\ run = {} /\ pend1 # {}
             leaking == IF relCheck THEN Leaking(busy, [p \in PeerIds |-> IF p \in InUsePeers(e) THEN 1 ELSE 0], PeerIds) ELSE {}
             bad == (IF snd = <<>> \/ OverallOk(run, maxPar) THEN {} ELSE {"C23.limit-overall"})
                    \cup (IF snd = <<>> \/ PerPeerOk(run, perPeer) THEN {} ELSE {"C23.limit-per-peer"})
                    \cup (IF nakDue /\ ~NakOk(TRUE, FALSE, NakSent(e, e.p, e.c)) THEN {"C23.nak-missing"} ELSE {})
                    \cup (IF leaking = {} THEN {} ELSE {"C23.slot-leak"})
-        IN /\ loose' = lo1 /\ strict' = sr1 /\ exp' = exp1
+                   \cup (IF starved THEN {"C23.nak-missing/deferred"} ELSE {})
+        IN /\ loose' = lo1 /\ strict' = sr1 /\ exp' = exp1 /\ pend' = pend1
            /\ viol' = IF bad = {} THEN viol ELSE Append(viol, Fail(l, bad, e))
            /\ poisoned' = (bad # {})
            /\ stats' = [stats EXCEPT !.sends = @ + Len(snd),
